@@ -47,6 +47,9 @@ const (
 	// FaultSlow: the call takes a few seconds and then succeeds (a slow disk, a lock wait): no error, the clock moves
 	// inside the request
 	FaultSlow = "slow"
+	// FaultBareSentinel: one reused *oidc.Error value WITHOUT description (as a package-level oidc.ErrServerError()
+	// kept by the storage), returned wrapped with the context of the call
+	FaultBareSentinel = "wrapped-bare-sentinel"
 	// FaultDuplicate: StoreDeviceAuthorization answers with the documented op.ErrDuplicateUserCode (bare, or wrapped with
 	// context when the store wraps its sentinels)
 	FaultDuplicate = "duplicate-user-code"
@@ -110,12 +113,12 @@ type Client struct {
 	Dev             bool
 	Skew            time.Duration
 	UserinfoAssert  bool
-	AllowedScopes   []string         // custom scopes this client may request
+	AllowedScopes   []string // custom scopes this client may request
 	// scopes the client does not want asserted into its ID tokens / its JWT access tokens (the two
 	// RestrictAdditional...Scopes hooks; empty: identity, as most clients have it)
 	DropFromID, DropFromAT []string
-	Key             *jose.JSONWebKey // public key for private_key_jwt / jwt profile (nil: none)
-	LoginBase       string
+	Key                    *jose.JSONWebKey // public key for private_key_jwt / jwt profile (nil: none)
+	LoginBase              string
 }
 
 func (c *Client) GetID() string                        { return c.ID }
@@ -375,7 +378,9 @@ type Store struct {
 
 	// Sentinel is the reused *oidc.Error of FaultSentinel (one value per store, handed out again and again).
 	Sentinel *oidc.Error
-	wrapSeq  int
+	// BareSentinel is the reused *oidc.Error of FaultBareSentinel: no description, no parent
+	BareSentinel *oidc.Error
+	wrapSeq      int
 	// Unpublished: the published key set is empty (every key withdrawn) although a signing key still exists
 	Unpublished bool
 	// WrapSentinels: documented sentinel errors (op.ErrInvalidRefreshToken, op.ErrDuplicateUserCode) are returned
@@ -390,7 +395,8 @@ func NewStore() *Store {
 		Clients: map[string]*Client{}, Users: map[string]*User{}, AuthReqs: map[string]*AuthReq{}, Codes: map[string]string{},
 		Tokens: map[string]*Token{}, Refreshes: map[string]*Refresh{}, Devices: map[string]*Device{}, DeletedAuthReqs: map[string]*AuthReq{},
 		AccessLifetime: 5 * time.Minute, RefreshLifetime: 5 * time.Hour, reqCalls: map[int]int{}, FaultsFired: map[string]int{},
-		Sentinel: oidc.ErrServerError().WithDescription("simstore: storage unavailable"),
+		Sentinel:     oidc.ErrServerError().WithDescription("simstore: storage unavailable"),
+		BareSentinel: oidc.ErrServerError(),
 	}
 }
 
@@ -485,6 +491,12 @@ func (s *Store) faultErr(ctx context.Context, fault string) error {
 		return fmt.Errorf("simstore: %w", context.DeadlineExceeded)
 	case FaultCtxDone:
 		return fmt.Errorf("simstore: %w", ctx.Err())
+	case FaultBareSentinel:
+		s.mu.Lock()
+		s.wrapSeq++
+		n := s.wrapSeq
+		s.mu.Unlock()
+		return fmt.Errorf("simstore: call %d of this store: %w", n, s.BareSentinel)
 	case FaultDuplicate:
 		if s.WrapSentinels {
 			return fmt.Errorf("simstore: unique constraint user_code: %w", op.ErrDuplicateUserCode)
